@@ -344,6 +344,36 @@ theorem run_append (c : SubCfg) (topic : Topic) (as bs : List Act) : ∀ (s : St
     | none => rfl
     | some s1 => exact ih s1
 
+theorem run_unsubReturned (c : SubCfg) (topic : Topic) (as : List Act) : ∀ (s s' : St),
+    run c topic s as = some s' → s.unsubReturned = true → s'.unsubReturned = true := by
+  induction as with
+  | nil => intro s s' h hu; simp only [run] at h; cases h; exact hu
+  | cons a t ih =>
+    intro s s' h hu
+    simp only [run] at h
+    cases hs : step c topic s a with
+    | none => rw [hs] at h; cases h
+    | some s1 =>
+      rw [hs] at h
+      apply ih s1 s' h
+      cases a with
+      | publish m =>
+        simp only [step] at hs
+        by_cases hc : s.subscribed ∧ m.topic = topic
+        · rw [if_pos hc] at hs; cases hs; exact hu
+        · rw [if_neg hc] at hs; cases hs; exact hu
+      | work =>
+        simp only [step] at hs
+        cases hq : s.queue with
+        | nil => rw [hq] at hs; cases hs
+        | cons p q => rw [hq] at hs; cases hs; exact hu
+      | unsubscribe => simp only [step] at hs; cases hs; rfl
+      | abandon =>
+        simp only [step] at hs
+        by_cases hq : s.quit = true
+        · rw [if_pos hq] at hs; cases hs; exact hu
+        · rw [if_neg hq] at hs; cases hs
+
 /-! ### go-stomp hand-over -/
 
 def Stomp.mu (s : Stomp) : Nat := 2 * s.frames.length + s.subC
